@@ -11,7 +11,7 @@ use serde_json::json;
 
 pub struct C17;
 
-const PRELUDE: &str = "v := 0\nxs := [1, 2, 3]\nob := {\"a\": 1}\nfn id(a) {\nreturn a\n}\nfn nf(a) {\nreturn a\n}\nfn sf_() {\nreturn undef_q\n}\n";
+const PRELUDE: &str = "v := 0\nxs := [1, 2, 3]\nob := {\"a\": 1}\nfn id(a) {\nreturn a\n}\nfn nf(a) {\nreturn a\n}\nfn sf_() {\nreturn undef_q\n}\nfn pr_() {\nprint(\"arg\")\nreturn 1\n}\n";
 
 /// expressions whose evaluation fails
 pub const EXPR_ERRORS: &[(&str, &str)] = &[
@@ -60,6 +60,11 @@ pub const EXPR_ERRORS: &[(&str, &str)] = &[
     ("slot holds an invalid escape", "$\"${\"\\q\"}\""),
     ("a function called from a slot fails", "$\"a${sf_()}b\""),
     ("a function called from a call fails", "id(sf_())"),
+    ("call of a non-function whose argument prints", "v(pr_())"),
+    ("call of an undefined name whose argument prints", "undef_c(pr_())"),
+    ("call of a missing property whose argument prints", "ob.b(pr_())"),
+    ("identity on ints", "1 === 1"),
+    ("non-identity on a string and a list", "\"a\" !== xs"),
 ];
 
 /// statements that fail
